@@ -4,6 +4,7 @@ void harness(void) {
   HAVOC_BUFS;
   ND_SV(input);
   uint8_t set[32];
+  ND_FILL_U8(set, set, 32);
   __CPROVER_assume(BIT_AT(set, '%'));
   str_t e = percent_encode(input, set);
   sv_t ev = str_sv(&e);
